@@ -218,9 +218,27 @@ pub struct BlanketCase {
 	pub vals: Vec<J>,
 	pub keys: Vec<String>,
 	pub methods: Vec<String>,
+	/// 128-bit integers (decimal text; the first two are read as u128, the rest as i128)
+	#[serde(default)]
+	pub wide: Vec<String>,
 }
 
 pub struct Blanket;
+
+/// every element of the emitted array is the integer literal of the value, digit by digit
+fn expect_int_texts(obs: &mut Obs, what: &str, r: Result<Option<Box<serde_json::value::RawValue>>, serde_json::Error>, want: &[String]) {
+	match r {
+		Ok(Some(raw)) => match parse_strict(raw.get().as_bytes()) {
+			Ok(J::Arr(a)) => {
+				let got: Vec<String> = a.iter().map(|v| if let J::Num(t) = v { t.clone() } else { format!("{v:?}") }).collect();
+				obs.check(got == want, &format!("blanket/{what}-different-values"), || format!("{} vs {want:?}", raw.get()));
+			}
+			other => obs.fail(format!("blanket/{what}-not-array"), format!("{} => {other:?}", raw.get())),
+		},
+		Ok(None) => obs.fail(format!("blanket/{what}-none"), format!("{want:?}")),
+		Err(e) => obs.fail(format!("blanket/{what}-error"), format!("{e} for {want:?}")),
+	}
+}
 
 fn expect_array(obs: &mut Obs, what: &str, r: Result<Option<Box<serde_json::value::RawValue>>, serde_json::Error>, want: &[Value]) {
 	match r {
@@ -257,8 +275,13 @@ impl SubCheck for Blanket {
 	}
 	fn strategy(&self, tier: Tier) -> BoxedStrategy<BlanketCase> {
 		let d = tier.pick(2, 4);
-		(proptest::collection::vec(arb_json(d), 16), proptest::collection::vec(arb_key(), 16), proptest::collection::vec(arb_string(6), 0..6))
-			.prop_map(|(vals, keys, methods)| BlanketCase { vals, keys, methods })
+		let wide_u = prop_oneof![2 => any::<u128>(), 1 => any::<u64>().prop_map(|n| n as u128), 1 => Just(u64::MAX as u128 + 1), 1 => Just(u128::MAX)].prop_map(|n| n.to_string());
+		let wide_i = prop_oneof![2 => any::<i128>(), 1 => any::<i64>().prop_map(|n| n as i128), 1 => Just(i64::MIN as i128 - 1), 1 => Just(i128::MIN), 1 => Just(i128::MAX)].prop_map(|n| n.to_string());
+		(proptest::collection::vec(arb_json(d), 16), proptest::collection::vec(arb_key(), 16), proptest::collection::vec(arb_string(6), 0..6), proptest::collection::vec(wide_u, 2), proptest::collection::vec(wide_i, 2))
+			.prop_map(|(vals, keys, methods, mut wide, wi)| {
+				wide.extend(wi);
+				BlanketCase { vals, keys, methods, wide }
+			})
 			.boxed()
 	}
 	fn run(&self, case: &BlanketCase, obs: &mut Obs) {
@@ -301,6 +324,21 @@ impl SubCheck for Blanket {
 			expect_array(obs, "array3", a3.to_rpc_params(), &v[..3]);
 			let a0: [Value; 0] = [];
 			expect_array(obs, "array0", a0.to_rpc_params(), &[]);
+			// 128-bit integers through every blanket impl and through the builder: the same digits come out
+			if case.wide.len() == 4 {
+				if let (Ok(u0), Ok(u1), Ok(i0), Ok(i1)) = (case.wide[0].parse::<u128>(), case.wide[1].parse::<u128>(), case.wide[2].parse::<i128>(), case.wide[3].parse::<i128>()) {
+					let w = &case.wide;
+					expect_int_texts(obs, "wide-tuple", (u0, u1, i0, i1).to_rpc_params(), &w[..]);
+					expect_int_texts(obs, "wide-slice", (&[u0, u1][..]).to_rpc_params(), &w[..2]);
+					expect_int_texts(obs, "wide-vec", vec![i0, i1].to_rpc_params(), &w[2..]);
+					expect_int_texts(obs, "wide-array", [u0, u1].to_rpc_params(), &w[..2]);
+					expect_int_texts(obs, "wide-rpc_params", jsonrpsee_core::rpc_params![u0, u1, i0, i1].to_rpc_params(), &w[..]);
+					let mut ap = ArrayParams::new();
+					let _ = ap.insert(u0);
+					let _ = ap.insert(i0);
+					expect_int_texts(obs, "wide-builder", ap.to_rpc_params(), &[w[0].clone(), w[2].clone()]);
+				}
+			}
 			// serde_json::Map
 			let mut m = serde_json::Map::new();
 			for (k, val) in case.keys.iter().zip(v.iter()) {
